@@ -17,3 +17,12 @@ from pyvc.api import UNITS as _UNITS
 for _u in list(_UNITS.get("C01", [])):
   if _u.name == "ofp_flow_mod_0":
     _w = unit(P, target=_u.target, name="flow_mod_priority_and_scalars_survive_the_wire")(_u.fn)
+
+
+# the frame side: the IPv4 header fields the extraction rules read (fragment offset and flags decide whether transport ports are
+# taken from the payload) are the ones on the wire - the C14 unit on an IPv4 datagram with any fragment offset, shared (C03_11)
+import contracts.c14_headers as _H   # noqa
+for _fr in (0x0fff, 0x1000, 0x1fff):
+  def _u(b, _fr=_fr):
+    return _H.ipv4_datagram_with_a_raw_payload_of_any_length(b, _fr)
+  unit(P, target=_H.PK + "ipv4:ipv4.parse (fragment offset and flags)", name="ipv4_fragment_offset_%#x_is_parsed_as_sent" % _fr)(_u)
